@@ -134,10 +134,22 @@ HexahedralMeshTopologyKernel::add_cell(std::vector<HalfFaceHandle> _halffaces, b
         ++idx;
     }
 
+    // Every side must have been found (a list with repeated or unconnected
+    // halffaces leaves invalid entries): reject instead of adding a cell
+    // that contains invalid halfface handles.
+    for(const int side: orderTop) {
+        if(!ordered_halffaces[side].is_valid()) {
+            return TopologyKernel::InvalidCellHandle;
+        }
+    }
+
     // Now set bottom-halfface
     HalfFaceHandle cur_hf = ordered_halffaces[0];
     HalfEdgeHandle cur_he = *(TopologyKernel::halfface(cur_hf).halfedges().begin());
     cur_hf = get_adjacent_halfface(cur_hf, cur_he, _halffaces);
+    if(!cur_hf.is_valid()) {
+        return TopologyKernel::InvalidCellHandle;
+    }
     cur_he = TopologyKernel::opposite_halfedge_handle(cur_he);
     cur_he = TopologyKernel::next_halfedge_in_halfface(cur_he, cur_hf);
     cur_he = TopologyKernel::next_halfedge_in_halfface(cur_he, cur_hf);
